@@ -261,7 +261,7 @@ func (p BitList) At(i int) bool {
 		return false
 	}
 	bit := BitOffset(i)
-	addr := p.off.addOffset(bit.offset())
+	addr := p.off.addSizeUnchecked(Size(bit.offset())) // list bounds were validated when it was read
 	return p.seg.readUint8(addr)&bit.mask() != 0
 }
 
@@ -276,7 +276,7 @@ func (p BitList) Set(i int, v bool) {
 		panic("BitList.Set called on a non-bit list")
 	}
 	bit := BitOffset(i)
-	addr := p.off.addOffset(bit.offset())
+	addr := p.off.addSizeUnchecked(Size(bit.offset())) // list bounds were validated when it was created
 	b := p.seg.slice(addr, 1)
 	if v {
 		b[0] |= bit.mask()
